@@ -1150,12 +1150,55 @@ fn timed_path_case(ctx: &mut Ctx, r: &mut Rng) {
     }
 }
 
+/// C07, "backward evaluation during braking-curve construction": the call pattern of BrakingPoints::recalc — one
+/// update_res with Dir::Unk at the end of the path, then Dir::Bwd calls walking back towards the start (cached indices
+/// of front and rear carried along), with steps shorter and longer than a profile element and than the train
+fn backward_res_case(ctx: &mut Ctx, r: &mut Rng) {
+    let Some(bu) = path_case(ctx, r, false, true) else { return; };
+    let mut tpc = PathTpc::new(bu.tp);
+    if tpc.extend(&bu.net, &bu.route).is_err() { return; }
+    let len = bu.tp.length.value;
+    let mass_static = bu.tp.towed_mass_static.value + 4.0 * 195000.0;
+    let mut st = TrainState::new(m(len), uc::KG * mass_static, uc::KG * (mass_static * 0.04), uc::KG * (mass_static * 0.6),
+        Some(InitTrainState::new(Some(uc::S * 0.0), Some(m(len)), Some(mps(0.0)))));
+    let Some(mut res) = make_res(r, &tpc, &st) else { return; };
+    let end = tpc.offset_end().value;
+    if end < len + 50.0 { return; }
+    let input = json!({"kind": "backward_resistance", "network": serde_json::to_value(&bu.net).unwrap(), "train_params": serde_json::to_value(&bu.tp).unwrap(),
+        "route": bu.route.iter().map(|l| l.idx()).collect::<Vec<_>>()});
+    ctx.count("train.bwd.cases");
+    st.offset = m(end);
+    st.speed = mps(0.0);
+    let mut dir = Dir::Unk;
+    let stride = *r.pick(&[5.0, 40.0, 300.0, 1200.0]);
+    let mut k = 0;
+    loop {
+        let (pre_res, pre_st) = (res.clone(), st);
+        let out = guard(|| res.update_res(&mut st, &tpc, &dir));
+        let a = match &out { None => "panic".to_string(), Some(Err(_)) => "err".into(), Some(Ok(())) => format!("ok {} {}", tok_res(&res), tok_state(&st)) };
+        let id = ctx.op("C07", "update_res", &format!("{} {} {} {} {}", tok_prcs(tpc.grades()), tok_prcs(tpc.curves()), tok_res(&pre_res), tok_state(&pre_st), dir_tok(&dir)), &a);
+        match out {
+            Some(Ok(())) => { ctx.count(&format!("train.bwd.update_res.{}", dir_tok(&dir))); oracle_res(ctx, &id, &tpc, &res, &st, &input, Some((&bu.net, &bu.route, &bu.tp))); }
+            Some(Err(_)) => { ctx.count("train.bwd.err"); break; }
+            None => { ctx.checked("C07", "no_panic"); ctx.fail("C07", "no_panic", &id, format!("update_res({}) panicked: {}", dir_tok(&dir), last_panic()), input.clone()); break; }
+        }
+        dir = Dir::Bwd;
+        k += 1;
+        let step = stride * *r.pick(&[0.2, 1.0, 1.0, 2.5]);
+        let nx = st.offset.value - step;
+        if nx - len < 0.0 || k > 400 { break; }
+        st.offset = m(nx);
+        st.speed = mps(*r.pick(&[0.0, 3.0, 12.0, 25.0]));
+    }
+}
+
 pub fn run(ctx: &mut Ctx, r: &mut Rng, tier: &str) {
     let (np, nbad, nss, nsl, nidx, steps, slsteps) = if tier == "thorough" { (400, 200, 60, 60, 4000, 400, 3000) } else { (40, 20, 6, 12, 400, 150, 1500) };
     for i in 0..np { let mut rr = r.fork(); let _ = path_case(ctx, &mut rr, i % 2 == 0, false); }
     for _ in 0..nbad { let mut rr = r.fork(); bad_route_case(ctx, &mut rr); }
     for _ in 0..nidx { let mut rr = r.fork(); calc_idx_case(ctx, &mut rr); }
     for _ in 0..nidx { let mut rr = r.fork(); locate_case(ctx, &mut rr); }
+    for _ in 0..(if tier == "thorough" { 300 } else { 40 }) { let mut rr = r.fork(); backward_res_case(ctx, &mut rr); }
     for _ in 0..nss { let mut rr = r.fork(); set_speed_case(ctx, &mut rr, steps); }
     for _ in 0..nsl { let mut rr = r.fork(); speed_limit_case(ctx, &mut rr, slsteps); }
     for _ in 0..(if tier == "thorough" { 80 } else { 10 }) { let mut rr = r.fork(); timed_path_case(ctx, &mut rr); }
